@@ -6,7 +6,7 @@ from common import *
 BLOCKS = {"BLOCK", "FBLOCK"}
 # footprint: list of (projection prefix, set of op kinds or None = any)
 PROPS = {
- "C01": dict(fp=[("bal.escrow", None), ("vqueue", None), ("auction.status", None), ("bid.terms", None)],
+ "C01": dict(fp=[("bal.escrow", None), ("vqueue", None), ("auction.status", None), ("bid.terms", None), ("module_invariants", None)],
              tags=["settle_batch", "settle_fixed", "cancel_ok", "donation", "release", "mod_ok", "bid_fixed_ok", "bid_worth_ok", "bid_many_ok"]),
  "C02": dict(fp=[("transfers", None), ("bal.", None)],
              tags=["settle_batch", "settle_fixed", "release", "finish_vesting", "cancel_ok", "create_fixed_ok", "create_batch_ok", "bid_fixed_ok", "bid_worth_ok", "bid_many_ok", "mod_ok"]),
